@@ -413,6 +413,22 @@ def run_alias(spec, acc, api):
                 if not same_value(got, base_v):
                     acc.violation('keyword-changed-by-a-variable', f'{json.dumps(e)} = {got!r} with variables named true/false/null in {where}; {base_v!r} without', {'alias': 'keywords'})
     acc.case(('keywords',), True)
+    # a call expression without the optional args member (models built by programs): every such call has its own empty argument list,
+    # whatever earlier calls of this process did with theirs
+    for rep in range(3):
+        for builtins in (True, False):
+            gl = dict(lib)
+            r1 = evaluate_expression({'function': {'name': 'arrayNew'}}, {'globals': gl}, None, builtins)
+            lib['arrayPush']([r1, 'left over', rep], None) if isinstance(r1, list) else None
+            r2 = evaluate_expression({'function': {'name': 'arrayNew'}}, {'globals': gl}, None, builtins)
+            r3 = evaluate_expression({'function': {'name': 'stringFromCharCode'}}, {'globals': gl}, None, builtins)
+            r4 = evaluate_expression({'function': {'name': 'arrayNew', 'args': []}}, {'globals': gl}, None, builtins)
+            got_args = []
+            evaluate_expression({'function': {'name': 'probe'}}, {'globals': {'probe': lambda a, o: got_args.append(list(a))}}, None, builtins)
+            acc.count('no_args_member_calls', 5)
+            if r2 != [] or r2 is r1 or r3 != '' or r4 != [] or got_args != [[]]:
+                acc.violation('call-without-args-sees-earlier-calls', f'after pushing to the result of arrayNew() (model without args): arrayNew() = {r2!r}, stringFromCharCode() = {r3!r}, arrayNew() with args [] = {r4!r}, a host function received {got_args!r}', {'alias': 'no-args-member'})
+                break
     acc.sample({'alias_table_checked': dict(list(sorted(ALIASES.items()))[:6])}, limit=1)
 
 
